@@ -1,9 +1,270 @@
 import Driver.Util
-/-! driver ops of C07 (prefix `c07.`); filled in by the C07 work -/
+import Model.SetAlg
+import Model.Rdataset
+import Generated.Consts
+/-! driver ops of C07 (prefix `c07.`): whole operation histories over four registers on one line,
+the observable trace (status of every operation and the register it wrote) on one line. -/
 namespace Driver
 open Model
 
+def showNats (xs : List Nat) : String :=
+  if xs.isEmpty then "-" else ",".intercalate (xs.map toString)
+
+def parseReg (s : String) : Option Nat := do
+  let n ← s.toNat?
+  if n < 4 then some n else none
+
+def parseOptNat (s : String) : Option (Option Nat) :=
+  if s = "-" then some none else s.toNat?.map some
+
+def showBool (b : Bool) : String := if b then "true" else "false"
+
+/-! ## `c07.set`: dns.set.Set over small integers -/
+
+abbrev SRegs := List (List Nat)
+
+def sGet (rs : SRegs) (i : Nat) : List Nat := rs.getD i []
+
+partial def runSet (rs : SRegs) (out : List String) : List String → Option (List String)
+  | [] => some out.reverse
+  | "new" :: r :: n :: rest => do
+    let r ← parseReg r; let n ← n.toNat?
+    let xs ← (rest.take n).mapM String.toNat?
+    if (rest.take n).length ≠ n then none
+    let v := SetAlg.ofList xs
+    runSet (rs.set r v) (("ok:" ++ showNats v) :: out) (rest.drop n)
+  | "upd" :: r :: n :: rest => do
+    let r ← parseReg r; let n ← n.toNat?
+    let xs ← (rest.take n).mapM String.toNat?
+    if (rest.take n).length ≠ n then none
+    let v := SetAlg.update (sGet rs r) xs
+    runSet (rs.set r v) (("ok:" ++ showNats v) :: out) (rest.drop n)
+  | "add" :: r :: x :: rest => do
+    let r ← parseReg r; let x ← x.toNat?
+    let v := SetAlg.add (sGet rs r) x
+    runSet (rs.set r v) (("ok:" ++ showNats v) :: out) rest
+  | "rm" :: r :: x :: rest => do
+    let r ← parseReg r; let x ← x.toNat?
+    match SetAlg.remove (sGet rs r) x with
+    | some v => runSet (rs.set r v) (("ok:" ++ showNats v) :: out) rest
+    | none => runSet rs (("err ValueError:" ++ showNats (sGet rs r)) :: out) rest
+  | "disc" :: r :: x :: rest => do
+    let r ← parseReg r; let x ← x.toNat?
+    let v := SetAlg.discard (sGet rs r) x
+    runSet (rs.set r v) (("ok:" ++ showNats v) :: out) rest
+  | "pop" :: r :: rest => do
+    let r ← parseReg r
+    match SetAlg.pop (sGet rs r) with
+    | some (x, v) => runSet (rs.set r v) (("ok " ++ toString x ++ ":" ++ showNats v) :: out) rest
+    | none => runSet rs (("err KeyError:" ++ showNats (sGet rs r)) :: out) rest
+  | "clear" :: r :: rest => do
+    let r ← parseReg r
+    runSet (rs.set r []) ("ok:-" :: out) rest
+  | "cp" :: c :: a :: rest => do
+    let c ← parseReg c; let a ← parseReg a
+    let v := SetAlg.clone (sGet rs a)
+    runSet (rs.set c v) (("ok:" ++ showNats v) :: out) rest
+  | "get" :: r :: i :: rest => do
+    let r ← parseReg r; let i ← i.toNat?
+    match SetAlg.getItem (sGet rs r) i with
+    | some x => runSet rs (("ok " ++ toString x) :: out) rest
+    | none => runSet rs ("err StopIteration" :: out) rest
+  | "del" :: r :: i :: rest => do
+    let r ← parseReg r; let i ← i.toNat?
+    match SetAlg.delItem (sGet rs r) i with
+    | some v => runSet (rs.set r v) (("ok:" ++ showNats v) :: out) rest
+    | none => runSet rs (("err StopIteration:" ++ showNats (sGet rs r)) :: out) rest
+  | "gets" :: r :: a :: b :: st :: rest => do
+    let r ← parseReg r; let a ← a.toNat?; let b ← parseOptNat b; let st ← st.toNat?
+    if st = 0 then none
+    runSet rs (("ok " ++ showNats (SetAlg.getSlice (sGet rs r) a b st)) :: out) rest
+  | "dels" :: r :: a :: b :: st :: rest => do
+    let r ← parseReg r; let a ← a.toNat?; let b ← parseOptNat b; let st ← st.toNat?
+    if st = 0 then none
+    let v := SetAlg.delSlice (sGet rs r) a b st
+    runSet (rs.set r v) (("ok:" ++ showNats v) :: out) rest
+  | op :: a :: b :: rest => do
+    let a ← parseReg a; let b ← parseReg b
+    let A := sGet rs a; let B := sGet rs b
+    let inplace (v : List Nat) := runSet (rs.set a v) (("ok:" ++ showNats v) :: out) rest
+    let pred (v : Bool) := runSet rs (showBool v :: out) rest
+    match op with
+    | "uu" => inplace (if a = b then SetAlg.unionUpdateSelf A else SetAlg.unionUpdate A B)
+    | "iu" => inplace (if a = b then SetAlg.interUpdateSelf A else SetAlg.interUpdate A B)
+    | "du" => inplace (if a = b then SetAlg.diffUpdateSelf A else SetAlg.diffUpdate A B)
+    | "sdu" => inplace (if a = b then SetAlg.symDiffUpdateSelf A else SetAlg.symDiffUpdate A B)
+    | "sub" => pred (SetAlg.isSubset A B)
+    | "sup" => pred (SetAlg.isSuperset A B)
+    | "dj" => pred (SetAlg.isDisjoint A B)
+    | "eq" => pred (SetAlg.setEq A B)
+    | _ =>
+      -- copying forms: `op c a b` (here a = destination register, b = first operand)
+      match rest with
+      | c2 :: rest' => do
+        let c2 ← parseReg c2
+        let X := sGet rs b; let Y := sGet rs c2
+        let fin (v : List Nat) := runSet (rs.set a v) (("ok:" ++ showNats v) :: out) rest'
+        match op with
+        | "un" => fin (SetAlg.union X Y)
+        | "in" => fin (SetAlg.inter X Y)
+        | "df" => fin (SetAlg.diff X Y)
+        | "sd" => fin (SetAlg.symDiff X Y)
+        | _ => none
+      | [] => none
+  | _ => none
+
+/-! ## `c07.rds`: dns.rdataset.Rdataset / ImmutableRdataset over abstract records -/
+
+def parseRd (s : String) : Option Rd :=
+  match splitOnChar s ':' with
+  | [c, t, r, d] => do
+    let c ← c.toNat?; let t ← t.toNat?; let r ← parseBool r; let d ← ofHex d
+    some { cls := c, typ := t, rel := r, dig := d }
+  | _ => none
+
+def showRd (r : Rd) : String :=
+  s!"{r.cls}:{r.typ}:{if r.rel then "1" else "0"}:{toHexP r.dig}"
+
+def showRds (p : Rds × Bool) : String :=
+  let s := p.1
+  s!"{s.cls}/{s.typ}/{s.covers}/{s.ttl}/{if p.2 then "I" else "M"}/" ++
+    (if s.items.isEmpty then "-" else ";".intercalate (s.items.map showRd))
+
+abbrev RRegs := List (Rds × Bool)
+
+def rGet (rs : RRegs) (i : Nat) : Rds × Bool := rs.getD i (rdsNew 1 1 0 0, false)
+
+def showRes (r : RdsR) (imm : Bool) : String :=
+  (match r.2 with | none => "ok" | some e => "err " ++ e.toString) ++ ":" ++ showRds (r.1, imm)
+
+partial def runRds (rs : RRegs) (out : List String) : List String → Option (List String)
+  | [] => some out.reverse
+  | "new" :: r :: c :: t :: cv :: ttl :: rest => do
+    let r ← parseReg r; let c ← c.toNat?; let t ← t.toNat?; let cv ← cv.toNat?; let ttl ← ttl.toNat?
+    let v := (rdsNew c t cv ttl, false)
+    runRds (rs.set r v) (("ok:" ++ showRds v) :: out) rest
+  | "add" :: r :: rd :: ttl :: rest => do
+    let r ← parseReg r; let rd ← parseRd rd; let ttl ← parseOptNat ttl
+    let (s, imm) := rGet rs r
+    if imm then runRds rs (showRes (s, some .immutable) imm :: out) rest
+    else
+      let res := rdsAdd Consts.singletons s rd ttl
+      runRds (rs.set r (res.1, false)) (showRes res false :: out) rest
+  | "ttl" :: r :: t :: rest => do
+    let r ← parseReg r; let t ← t.toNat?
+    let (s, imm) := rGet rs r
+    if imm then runRds rs (showRes (s, some .immutable) imm :: out) rest
+    else
+      let v := updateTtl s t
+      runRds (rs.set r (v, false)) (showRes (v, none) false :: out) rest
+  | "rm" :: r :: rd :: rest => do
+    let r ← parseReg r; let rd ← parseRd rd
+    let (s, imm) := rGet rs r
+    if imm then runRds rs (showRes (s, some .immutable) imm :: out) rest
+    else match SetAlg.remove s.items rd with
+      | some v => runRds (rs.set r ({ s with items := v }, false)) (showRes ({ s with items := v }, none) false :: out) rest
+      | none => runRds rs (showRes (s, some .valueError) false :: out) rest
+  | "disc" :: r :: rd :: rest => do
+    let r ← parseReg r; let rd ← parseRd rd
+    let (s, imm) := rGet rs r
+    if imm then runRds rs (showRes (s, some .immutable) imm :: out) rest
+    else
+      let v := { s with items := SetAlg.discard s.items rd }
+      runRds (rs.set r (v, false)) (showRes (v, none) false :: out) rest
+  | "pop" :: r :: rest => do
+    let r ← parseReg r
+    let (s, imm) := rGet rs r
+    if imm then runRds rs (showRes (s, some .immutable) imm :: out) rest
+    else match SetAlg.pop s.items with
+      | some (x, v) =>
+        runRds (rs.set r ({ s with items := v }, false)) (("ok " ++ showRd x ++ ":" ++ showRds ({ s with items := v }, false)) :: out) rest
+      | none => runRds rs (showRes (s, some .keyError) false :: out) rest
+  | "clear" :: r :: rest => do
+    let r ← parseReg r
+    let (s, imm) := rGet rs r
+    if imm then runRds rs (showRes (s, some .immutable) imm :: out) rest
+    else
+      let v := { s with items := [] }
+      runRds (rs.set r (v, false)) (showRes (v, none) false :: out) rest
+  | "del" :: r :: i :: rest => do
+    let r ← parseReg r; let i ← i.toNat?
+    let (s, imm) := rGet rs r
+    if imm then runRds rs (showRes (s, some .immutable) imm :: out) rest
+    else match SetAlg.delItem s.items i with
+      | some v => runRds (rs.set r ({ s with items := v }, false)) (showRes ({ s with items := v }, none) false :: out) rest
+      | none => runRds rs (showRes (s, some .stopIteration) false :: out) rest
+  | "dels" :: r :: a :: b :: st :: rest => do
+    let r ← parseReg r; let a ← a.toNat?; let b ← parseOptNat b; let st ← st.toNat?
+    if st = 0 then none
+    let (s, imm) := rGet rs r
+    if imm then runRds rs (showRes (s, some .immutable) imm :: out) rest
+    else
+      let v := { s with items := SetAlg.delSlice s.items a b st }
+      runRds (rs.set r (v, false)) (showRes (v, none) false :: out) rest
+  | "cp" :: c :: a :: rest => do
+    let c ← parseReg c; let a ← parseReg a
+    let v := rGet rs a
+    runRds (rs.set c v) (("ok:" ++ showRds v) :: out) rest
+  | "imm" :: c :: a :: rest => do
+    let c ← parseReg c; let a ← parseReg a
+    let v := ((rGet rs a).1, true)
+    runRds (rs.set c v) (("ok:" ++ showRds v) :: out) rest
+  | "match" :: r :: c :: t :: cv :: rest => do
+    let r ← parseReg r; let c ← c.toNat?; let t ← t.toNat?; let cv ← cv.toNat?
+    runRds rs (showBool (rdsMatch (rGet rs r).1 c t cv) :: out) rest
+  | op :: a :: b :: rest => do
+    let a ← parseReg a; let b ← parseReg b
+    let (A, immA) := rGet rs a; let (B, _) := rGet rs b
+    let alias := a == b
+    let inplace (res : RdsR) := runRds (rs.set a (res.1, immA)) (showRes res immA :: out) rest
+    let refuse := runRds rs (showRes (A, some .immutable) immA :: out) rest
+    let pred (v : Bool) := runRds rs (showBool v :: out) rest
+    match op with
+    | "uu" => if immA then refuse else inplace (rdsUnionUpdate Consts.singletons A B alias)
+    | "iu" => if immA then refuse else inplace (rdsInterUpdate A B alias)
+    | "upd" => if immA then refuse else inplace (rdsUpdate Consts.singletons A B)
+    | "du" =>
+      if immA then (if !alias && B.items.isEmpty then inplace (A, none) else refuse)
+      else inplace (rdsDiffUpdate A B alias)
+    | "sdu" => if immA then refuse else inplace (rdsSymDiffUpdate Consts.singletons A B alias)
+    | "sub" => pred (SetAlg.isSubset A.items B.items)
+    | "sup" => pred (SetAlg.isSuperset A.items B.items)
+    | "dj" => pred (SetAlg.isDisjoint A.items B.items)
+    | "eq" => pred (rdsEq A B)
+    | _ =>
+      match rest with
+      | c2 :: rest' => do
+        let c2 ← parseReg c2
+        let (X, immX) := rGet rs b; let (Y, _) := rGet rs c2
+        -- a raising copy leaves the destination register untouched
+        let fin (res : RdsR) :=
+          match res.2 with
+          | none => runRds (rs.set a (res.1, immX)) (showRes res immX :: out) rest'
+          | some e => runRds rs (("err " ++ e.toString) :: out) rest'
+        match op with
+        | "un" => fin (rdsUnion Consts.singletons X Y)
+        | "in" => fin (rdsInter X Y)
+        | "df" => fin (rdsDiff X Y)
+        | "sd" => fin (rdsSymDiff Consts.singletons X Y)
+        | _ => none
+      | [] => none
+  | _ => none
+
+def rdCmpLine (a b : Rd) : String :=
+  let c := rdCmp a b
+  s!"eq={showBool (rdEq a b)} cmp={signOf c}"
+
 def handleC07 : List String → Option String
+  | "c07.set" :: script => do
+    let tr ← runSet [[], [], [], []] [] script
+    some ("|".intercalate tr)
+  | "c07.rds" :: script => do
+    let e := (rdsNew 1 1 0 0, false)
+    let tr ← runRds [e, e, e, e] [] script
+    some ("|".intercalate tr)
+  | ["c07.rd", a, b] => do
+    let a ← parseRd a; let b ← parseRd b
+    some (rdCmpLine a b)
   | _ => none
 
 end Driver
